@@ -1211,11 +1211,26 @@ def tie(ctx):
                 del os.environ["VERIF_C19_NOFORK"]
     finally:
         close_lab()
-    check_modes(ctx, divs)
-    check_model_roundtrip(ctx, divs)
-    check_window(ctx, divs)
-    observe_serve_precision(ctx, divs)
-    check_startup_sequence(ctx, divs)
+    for part, comp, kind in (
+        (check_modes, "corr.snapshot:modes", "modes"),
+        (check_model_roundtrip, "corr.snapshot:roundtrip", "model-roundtrip"),
+        (check_window, "corr.snapshot:window", "window"),
+        (observe_serve_precision, "corr.snapshot:window", "window"),  # it drives train_step
+        (check_startup_sequence, "corr.snapshot:startup", "startup-sequence"),
+    ):
+        try:
+            part(ctx, divs)
+        except (ImportError, SyntaxError, KeyboardInterrupt, SystemExit, MemoryError):
+            raise
+        except Exception as e:
+            # an exception out of the implementation is an observation, not a failure of the machinery
+            import traceback
+
+            tb = traceback.extract_tb(e.__traceback__)
+            where = "%s:%d" % (os.path.basename(tb[-1].filename), tb[-1].lineno) if tb else "?"
+            if tb and "/harness/" in tb[-1].filename:
+                raise
+            divs.append(Divergence(comp, {"kind": kind, "impl_exception": type(e).__name__}, "the implementation raised %s: %s (at %s)" % (type(e).__name__, str(e)[:160], where), "the operation completes"))
     ctx.exhaustive = True  # every crash point of every scripted history was enumerated
     return divs
 
